@@ -590,6 +590,61 @@ func checkC10(c *Ctx, r *Report) {
 		}
 	}
 	r5.onlyCallers("call loadRules", []string{"(*" + gT + ").loadRules"}, c.Fns, cgP+".NewBasicConnectionGater")
+	// a datastore that is given is used: kept (wrapped) in cg.ds and read back before the gater is handed out
+	if f := r5.need(cgP + ".NewBasicConnectionGater"); f != nil && len(f.Params) == 1 {
+		dsP := f.Params[0]
+		isDS := func(v ssa.Value) bool {
+			v = resolveLoad(strip2(v))
+			return v == ssa.Value(dsP) || isParamCellLoad(c, v, dsP)
+		}
+		given := edgeNil(isDS, false)
+		var from []CFGEdge
+		for _, b := range blocksDeep(f) {
+			for si := range b.Succs {
+				if given(b, si) {
+					from = append(from, CFGEdge{b, si})
+				}
+			}
+		}
+		keeps := findInstrs(f, func(in ssa.Instruction) bool {
+			st, ok := in.(*ssa.Store)
+			if !ok || !isFieldWrite(in, gT+".ds") {
+				return false
+			}
+			if isDS(st.Val) {
+				return true
+			}
+			call, isC := resolveLoad(strip2(st.Val)).(*ssa.Call)
+			if !isC {
+				if mi, isMI := resolveLoad(strip2(st.Val)).(*ssa.MakeInterface); isMI {
+					call, isC = resolveLoad(strip2(mi.X)).(*ssa.Call)
+				}
+			}
+			if !isC {
+				return false
+			}
+			for _, a := range call.Call.Args {
+				if isDS(a) {
+					return true
+				}
+			}
+			return false
+		})
+		loads := findInstrs(f, callPred("(*"+gT+").loadRules"))
+		okRet := func(in ssa.Instruction) bool {
+			ret, ok := in.(*ssa.Return)
+			return ok && isNilConst(retVal(ret, 1))
+		}
+		if len(from) == 0 {
+			r5.Fail("NewBasicConnectionGater: a datastore that is given is used", f.Pos(), "no `ds != nil` test found", "")
+		} else {
+			w, n := (&Cut{Fn: f, FromEdges: from, Target: okRet, Sep: inSet(keeps)}).Run(c)
+			r5.Check(w == "" && len(keeps) >= 1, "NewBasicConnectionGater: a datastore that is given is kept in cg.ds", f.Pos(), n+1, "", "blocks are never persisted: after a restart everything is allowed again", w)
+			w, n = (&Cut{Fn: f, FromEdges: from, Target: okRet, Sep: inSet(loads)}).Run(c)
+			r5.Check(w == "" && len(loads) >= 1, "NewBasicConnectionGater: the persisted rules are loaded before the gater is handed out", f.Pos(), n+1, "", "blocks stored by an earlier run are not enforced", w)
+			r5.guard(f, "load the persisted rules", loads, "a datastore was given", given, nil)
+		}
+	}
 
 	// ---- R6 ---------------------------------------------------------------
 	r6 := r.Rule("C10-R6", "E4", 18, "blockedPeers/blockedAddrs/blockedSubnets only under the gater's RWMutex (writes under the write lock)")
